@@ -31,4 +31,20 @@ CHECKS = {
         parts=[dict(pkg="./pkg/redis", harness=["redis"], test="^TestVerif_C10$", shards=16,
                     budget=dict(quick=60, thorough=900))],
     ),
+    "C15": dict(
+        level="exploration",
+        engine="seqx",
+        technique="bounded exhaustive enumeration of keys (all brace arrangements) and of slot ranges, executed on the real functions, compared with a bit-at-a-time reference CRC16 and the cluster specification",
+        text="KeyToSlot is compared with the specification on every string over {,},a,b up to the bound (every arrangement of braces: empty tags, "
+             "unbalanced, nested, repeated) and on all 1-2 byte keys; both CRC16 copies against a bitwise reference on all 1-2 byte inputs; the "
+             "checkpoint-key search is run on all singleton ranges and a grid (quick) or on all 134M ranges (thorough); every chosen key must hash "
+             "inside its range and be excluded by the key filter under every filter configuration.",
+        note="trusts crcref (bitwise CRC16/XMODEM, checked against the published check value 0x31c3) and the specification transcription in crcref.Slot",
+        rule="cases = keys / byte strings / slot ranges, each distinct by construction of the enumeration; non-trivial = every case (each compares the real function's result with the reference)",
+        parts=[
+            dict(pkg="./redis-shake/common", harness=["common"], test="^TestVerif_C15$", shards=16, budget=dict(quick=60, thorough=1200)),
+            dict(pkg="./redis-shake/dbSync/latencymonitor", harness=["latencymonitor"], test="^TestVerif_C15L$", shards=16, budget=dict(quick=60, thorough=600)),
+            dict(pkg="./redis-shake/filter", harness=["filter"], test="^TestVerif_C15F$", shards=1, budget=dict(quick=60, thorough=600)),
+        ],
+    ),
 }
